@@ -80,7 +80,8 @@ def run_gen_phase(ctx: Ctx, phase: dict):
     """TLC generates behaviours of a profile; every one is replayed on the real code."""
     prof = dict(PROFILES[phase["profile"]])
     prof.update(phase.get("override", {}))
-    run_id = f"{ctx.prop}-{phase['profile']}-{os.getpid()}"
+    ctx.phase_no = getattr(ctx, "phase_no", 0) + 1
+    run_id = f"{ctx.prop}-{phase['profile']}-{ctx.phase_no}-{os.getpid()}"
     d = tlc.prepare(run_id, ctx.seed)
     defs = dict(prof["defs"])
     defs["Emit"] = True
